@@ -60,6 +60,14 @@ ClearOpt(kind, row, val, G) ==
         near == {j \in DOMAIN row : ~ClearlyWorse(kind, vf[j], optf, G)}
     IN  IF Cardinality(near) = 1 THEN CHOOSE j \in near : TRUE ELSE 0
 
+\* a reported number whose rounding to six decimals is beyond numerical doubt
+OffBoundary(x) == x.k = "ok" /\ LET m == x.f % 1000 IN m < 496 \/ m > 504
+\* the two runs report the same numbers (to 1e-9) for every competitor of a row
+SameNumbers(row, v1, v2, rel) ==
+    \A j \in DOMAIN row : LET t == row[j].t
+                          IN  OffBoundary(v1[t]) /\ OffBoundary(v2[rel.pi[t]])
+                              /\ FixNear(Fx(v2[rel.pi[t]]), Fx(v1[t]), 1)
+
 HasRel(S) == "rel" \in DOMAIN S /\ S.rel.kind = "perm"
 
 \* at the reachability observation of description 2
@@ -88,6 +96,13 @@ RelReachClauses(S, d, prune, p2, rs2, reached, orcs) ==
                              IN  j # 0 /\ ptol(s) < Nano /\
                                  ~( r1.rstrat[s].acts = <<g.tr[s][j].a>>
                                     /\ rs2[rel.pi[s]].acts = <<Alpha(rel, g.tr[s][j].a)>> )}}
+                \* the two runs saw the same competition, number for number: the lists must
+                \* correspond whatever the ties (a change that resolves ties by position)
+                \cup {"C13.RStratTieRenamed s=" \o S2(s) :
+                    s \in {s \in 1..g.n : g.owner[s] # PR /\ ~r1.rstrat[s].none /\ ~rs2[rel.pi[s]].none /\
+                             SameNumbers(g.tr[s], r1.prob, p2, rel) /\
+                             {Alpha(rel, r1.rstrat[s].acts[j]) : j \in DOMAIN r1.rstrat[s].acts}
+                                # SeqSet(rs2[rel.pi[s]].acts)}}
                 \cup {"C13.RStratShape s=" \o S2(s) :
                     s \in {s \in 1..g.n : rs2[rel.pi[s]].none # r1.rstrat[s].none}})
 
@@ -127,6 +142,15 @@ RelClauses(S, d, prune, o, outs, orcs) ==
                                  LET j == ClearOpt(g.owner[s], row, o1.rew, G + 2 * rtol(s))
                                  IN  j # 0 /\
                                      ~( o1.fstrat[s].acts = <<row[j].a>>
-                                        /\ o.fstrat[rel.pi[s]].acts = <<Alpha(rel, row[j].a)>> )}})
+                                        /\ o.fstrat[rel.pi[s]].acts = <<Alpha(rel, row[j].a)>> )}}
+                \cup {"C13.FStratTieRenamed s=" \o S2(s) :
+                    s \in {s \in o1.dom : ~tieflip /\ g.owner[s] # PR /\ ~o1.rstrat[s].none /\
+                             ~o1.fstrat[s].none /\ ~o.fstrat[rel.pi[s]].none /\
+                             LET row == SelectSeq(g.tr[s], LAMBDA e :
+                                           /\ (g.owner[s] = P1 => e.a \in SeqSet(o1.rstrat[s].acts))
+                                           /\ (prune /\ g.owner[s] = P1 => ~o1.prob[e.t].z))
+                             IN  Len(row) > 0 /\ SameNumbers(row, o1.rew, o.rew, rel) /\
+                                 {Alpha(rel, o1.fstrat[s].acts[j]) : j \in DOMAIN o1.fstrat[s].acts}
+                                    # SeqSet(o.fstrat[rel.pi[s]].acts)}})
 
 =============================================================================
